@@ -17,6 +17,11 @@
                                per engine: `A <engine> <n> same` | `A <engine> <n> CHANGED <names>`
          callh <f> <a> <b> <xbits>   C call of a helper-signature function through item->addr
          wide <f> <seed>       C call of a wide-signature function (8 x i64, 9 x d) through item->addr
+         callb <f> <ni> <nf> <cls> <size> <seed>
+                               C call, through item->addr, of  f (ni x i64, nf x d, BLOCK by value, i64, d)  where the
+                               block has MIR type blk+cls (cls 0..4) or rblk (cls 5) and <size> bytes.  The caller is
+                               this harness: it places the arguments itself according to the System V ABI
+                               (c03_call_abi), independently of MIR; engine `interp` uses MIR_interp_arr
      Usage and the `prog` command are those of engine.c. */
 #define _GNU_SOURCE
 #include <stdio.h>
@@ -28,9 +33,9 @@
 
 extern void c03_trash (void), c03_trash_lo (void), c03_trash_hi (void);
 static void no_trash (void) {}
-/* C03_TRASH=all|lo|hi|none: which caller-saved registers the allocator clobbers (default lo: every
-   caller-saved register except xmm8-15; see the known finding C03:bb-wrapper-xmm8-15) */
-static void (*trash) (void) = c03_trash_lo;
+/* C03_TRASH=all|lo|hi|none: which caller-saved registers the allocator clobbers (default all; lo = all
+   except xmm8-15, hi = only xmm8-15: finding C03:bb-wrapper-xmm8-15, fixed, regression corpus/C03/kf-bb-xmm8) */
+static void (*trash) (void) = c03_trash;
 static void *t_malloc (size_t n, void *ud) { void *p = malloc (n); (void) ud; trash (); return p; }
 static void *t_calloc (size_t n, size_t s, void *ud) { void *p = calloc (n, s); (void) ud; trash (); return p; }
 static void *t_realloc (void *q, size_t o, size_t n, void *ud) { void *p = realloc (q, n); (void) ud; (void) o; trash (); return p; }
@@ -229,11 +234,111 @@ static void do_wide (const char *fname, uint64_t seed) {
   print_cmp ("W", fname, args, rs, sgs, nlogs, c_logs);
 }
 
+/* ---------------- by-value block arguments, System V placement done here ---------------- */
+extern int64_t c03_call_abi (void *fn, const uint64_t *gp, const double *xmm, const uint64_t *stk, uint64_t nstk);
+
+/* fields of the block (must agree with checks/c03_gen.py block_fields): kind 0 = i64, 1 = i32, 2 = d */
+static int block_fields (int cls, int size, int off[8], int kind[8]) {
+  int n = 0;
+  if (cls == 0 || cls == 5) {
+    for (int o = 0; o + 8 <= size; o += 8) { off[n] = o; kind[n++] = 0; }
+  } else if (cls == 1) {
+    off[n] = 0; kind[n++] = 0;
+    if (size == 12) { off[n] = 8; kind[n++] = 1; }
+    if (size == 16) { off[n] = 8; kind[n++] = 0; }
+  } else if (cls == 2) {
+    off[n] = 0; kind[n++] = 2;
+    if (size == 16) { off[n] = 8; kind[n++] = 2; }
+  } else if (cls == 3) {
+    off[0] = 0; kind[0] = 0; off[1] = 8; kind[1] = 2; n = 2;
+  } else {
+    off[0] = 0; kind[0] = 2; off[1] = 8; kind[1] = 0; n = 2;
+  }
+  return n;
+}
+
+static void do_callb (const char *fname, int ni, int nf, int cls, int size, uint64_t seed) {
+  int64_t rs[MAXENG]; int sgs[MAXENG], nlogs[MAXENG];
+  uint64_t h = seed, ia[8], g;
+  double xa[10], y;
+  uint64_t blk[8];
+  int off[8], kind[8], nfld;
+  if (ni < 0 || ni > 7 || nf < 0 || nf > 9 || cls < 0 || cls > 5 || size < 8 || size > 48) { printf ("E bad-callb\n"); return; }
+  for (int i = 0; i < ni; i++) { h = c03_mix (h, (uint64_t) i + 3); ia[i] = h; }
+  for (int i = 0; i < nf; i++) { h = c03_mix (h, (uint64_t) i + 41); xa[i] = (double) (int64_t) (h % 1000003) * 0.25 - 500.0 * i; }
+  h = c03_mix (h, 77); g = h;
+  h = c03_mix (h, 78); y = (double) (int64_t) (h % 1000003) * 0.25;
+  memset (blk, 0, sizeof (blk));
+  nfld = block_fields (cls, size, off, kind);
+  for (int i = 0; i < nfld; i++) {
+    h = c03_mix (h, (uint64_t) i + 91);
+    if (kind[i] == 0) { memcpy ((char *) blk + off[i], &h, 8); }
+    else if (kind[i] == 1) { uint32_t w = (uint32_t) h; memcpy ((char *) blk + off[i], &w, 4); }
+    else { double d = (double) (int64_t) (h % 1000003) * 0.25 + 7.0 * i; memcpy ((char *) blk + off[i], &d, 8); }
+  }
+  /* System V placement */
+  uint64_t gp[6], stk[40];
+  double xmm[8];
+  int ngp = 0, nxmm = 0, nstk = 0, nw = (size + 7) / 8, rblk_gp = -1, rblk_stk = -1;
+  memset (gp, 0, sizeof (gp)); memset (xmm, 0, sizeof (xmm)); memset (stk, 0, sizeof (stk));
+  for (int i = 0; i < ni; i++) { if (ngp < 6) gp[ngp++] = ia[i]; else stk[nstk++] = ia[i]; }
+  for (int i = 0; i < nf; i++) { if (nxmm < 8) xmm[nxmm++] = xa[i]; else memcpy (&stk[nstk++], &xa[i], 8); }
+  if (cls == 5) { /* the address, as an INTEGER argument: filled per engine below */
+    if (ngp < 6) rblk_gp = ngp++; else rblk_stk = nstk++;
+  } else if (cls == 1 && ngp + nw <= 6) {
+    for (int w = 0; w < nw; w++) gp[ngp++] = blk[w];
+  } else if (cls == 2 && nxmm + nw <= 8) {
+    for (int w = 0; w < nw; w++) memcpy (&xmm[nxmm++], &blk[w], 8);
+  } else if (cls == 3 && ngp < 6 && nxmm < 8) {
+    gp[ngp++] = blk[0]; memcpy (&xmm[nxmm++], &blk[1], 8);
+  } else if (cls == 4 && ngp < 6 && nxmm < 8) {
+    memcpy (&xmm[nxmm++], &blk[0], 8); gp[ngp++] = blk[1];
+  } else { /* MEMORY */
+    for (int w = 0; w < nw; w++) stk[nstk++] = blk[w];
+  }
+  if (ngp < 6) gp[ngp++] = g; else stk[nstk++] = g;
+  if (nxmm < 8) xmm[nxmm++] = y; else memcpy (&stk[nstk++], &y, 8);
+  for (int k = 0; k < neng; k++) {
+    MIR_item_t fi = find_func (engs[k].ctx, fname);
+    if (fi == NULL) { printf ("E no-func %s\n", fname); return; }
+    uint64_t copy[8];
+    memcpy (copy, blk, sizeof (blk));
+    nlog = 0; rs[k] = 0;
+    int sg;
+    in_call = 1; alarm (4);
+    if ((sg = sigsetjmp (crash_env, 1)) == 0) {
+      if (engs[k].kind == E_INTERP) {
+        MIR_val_t v[24], r[1];
+        int n = 0;
+        memset (v, 0, sizeof (v)); memset (r, 0, sizeof (r));
+        for (int i = 0; i < ni; i++) v[n++].i = (int64_t) ia[i];
+        for (int i = 0; i < nf; i++) v[n++].d = xa[i];
+        v[n++].a = copy;
+        v[n++].i = (int64_t) g;
+        v[n++].d = y;
+        MIR_interp_arr (engs[k].ctx, fi, r, n, v);
+        rs[k] = r[0].i;
+      } else {
+        if (rblk_gp >= 0) gp[rblk_gp] = (uint64_t) (uintptr_t) copy;
+        if (rblk_stk >= 0) stk[rblk_stk] = (uint64_t) (uintptr_t) copy;
+        rs[k] = c03_call_abi (fi->addr, gp, xmm, stk, nstk);
+      }
+      if (cls == 5) rs[k] = (int64_t) c03_mix ((uint64_t) rs[k], copy[0]); /* what the callee stored into the block */
+    }
+    alarm (0); in_call = 0;
+    sgs[k] = sg; nlogs[k] = nlog;
+    memcpy (c_logs[k], logbuf, sizeof (logbuf[0]) * nlog);
+  }
+  char args[100];
+  snprintf (args, sizeof (args), "%d %d %d %d %llx", ni, nf, cls, size, (unsigned long long) seed);
+  print_cmp ("B", fname, args, rs, sgs, nlogs, c_logs);
+}
+
 int main (int argc, char **argv) {
   if (argc < 3) { fprintf (stderr, "usage: c03_iface <engines> <file.mir> [-q]\n"); return 2; }
   quiet = argc > 3 && !strcmp (argv[3], "-q");
   const char *tr = getenv ("C03_TRASH");
-  if (tr != NULL) trash = !strcmp (tr, "all") ? c03_trash : !strcmp (tr, "hi") ? c03_trash_hi : !strcmp (tr, "none") ? no_trash : c03_trash_lo;
+  if (tr != NULL) trash = !strcmp (tr, "all") ? c03_trash : !strcmp (tr, "hi") ? c03_trash_hi : !strcmp (tr, "none") ? no_trash : !strcmp (tr, "lo") ? c03_trash_lo : c03_trash;
   char *text = read_file (argv[2]);
   char *list = strdup (argv[1]);
   for (char *t = strtok (list, ","); t != NULL; t = strtok (NULL, ",")) {
@@ -276,6 +381,8 @@ int main (int argc, char **argv) {
       do_callh (tok[1], strtoull (tok[2], NULL, 16), strtoull (tok[3], NULL, 16), strtoull (tok[4], NULL, 16));
     } else if (!strcmp (tok[0], "wide") && nt >= 3) {
       do_wide (tok[1], strtoull (tok[2], NULL, 16));
+    } else if (!strcmp (tok[0], "callb") && nt >= 7) {
+      do_callb (tok[1], atoi (tok[2]), atoi (tok[3]), atoi (tok[4]), atoi (tok[5]), strtoull (tok[6], NULL, 16));
     } else
       printf ("E bad-line %s\n", tok[0]);
     fflush (stdout);
